@@ -144,6 +144,36 @@ CHECKS['C10'] = _gatt('Seeded search over application requests (by bound value a
 CHECKS['C11'] = _gatt('Same world as C10: between an indication and its confirmation no further indication on that connection; after faults stop and with the client confirming, every deliverable pending indication is emitted within '
                       '2*(pending+1) polls; requests for unsubscribed or unreadable characteristics are excluded from the obligation.', 'deterministic simulation: indication/confirmation interleavings, bounded liveness after faults stop')
 
+_STACK = {'harness': 'stack_sim', 'binary': 'stack_sim'}
+_STACK_NOTE = ('trusted: the simulated radio (harness/sim_radio.hpp, the scheduled_radio contract as documented) and the central / scanner / initiator model written from the Core specification '
+               '(harness/stack_world.hpp: CSA#1, anchors, transmit windows, control procedures); real code: link_layer<>, advertising, peripheral_latency, channel_map, ll_data_pdu_buffer, '
+               'll_l2cap_sdu_buffer, l2cap, signaling channel, GATT server; 4 link layer configurations (buffers 61..200 bytes, latency options, variable advertising map, white list, no-auto-start); '
+               'clock drift within +-500 ppm on both sides, radio set-up margin and disarm refusals as knobs; 2 us (+2 ppm) tolerance on window checks')
+_STACK_ASSUME = ['the central obeys the Core specification unless an op says otherwise (raw/hostile PDUs excuse the checks that depend on them)', 'one connection at a time (Bluetoe peripheral)',
+                 'radio of the real hardware is replaced by the contract; encryption is off (C28 is not decided here)']
+def _stack(text, technique, expl=''):
+    return {'harnesses': [_STACK], 'technique': technique, 'design_ref': 'DESIGN.md 4.2, 5, 6', 'level_text': text + ' Sampling, not proof.', 'level_note': _STACK_NOTE, 'assumptions': _STACK_ASSUME, 'explanation': expl}
+_ST = 'deterministic simulation of the whole peripheral (discrete-event time, drifting clocks, lossy air, hostile central) against a specification-derived central model: '
+CHECKS['C20'] = _stack('Seeded search over connect requests (all hop increments, random channel maps incl. < 2 channels and invalid hops), channel map updates, lost events and latency: every scheduled connection event must be on the '
+                       'channel an independent Channel Selection Algorithm #1 gives for the event the peripheral targets; invalid maps/hops must not take effect.', _ST + 'channel of every scheduled event')
+CHECKS['C21'] = _stack('Seeded search over connection update, channel map and PHY update indications with instants from the past to far ahead (wrap-around included), delivered late, retransmitted, followed by other PDUs that reuse the '
+                       'receive buffer, under latency, lost events and event cancelation: the new parameters must be in force exactly from the instant (channel, anchor/window, PHY), or the connection ends with Instant Passed; '
+                       'data received while a procedure is pending must be processed by the instant.', _ST + 'parameters in force at and around every instant')
+CHECKS['C22'] = _stack('Seeded search over connect requests with valid and invalid timing, intervals 7.5 ms..4 s, window offsets/sizes, drift of both clocks, bursts of lost events up to the supervision timeout: every receive window '
+                       'must contain the reference anchor (plus transmit window where one applies), the connection must not be dropped before the supervision timeout passed without a valid packet, and only valid connect requests connect.',
+                       _ST + 'receive windows, supervision timeout, connect decision')
+CHECKS['C23'] = _stack('Seeded search over the peripheral_latency option sets with application data, central data, MD bursts, CRC errors, lost events and radio disarm success/refusal: the peripheral never skips more than the latency, '
+                       'listens when a configured condition held, and event counter and channel stay in step with the number of elapsed intervals, including events pulled back by pending data.', _ST + 'attended events vs. listen conditions')
+CHECKS['C24'] = _stack('Seeded search over advertising with fixed and run-time changed channel maps, start/stop/count controls, scan requests, connects and disconnects in between: every advertising event uses each enabled channel '
+                       'once in ascending order and no disabled one, events are interval + 0..10 ms apart, nothing is sent while stopped or beyond the count.', _ST + 'advertising PDUs on the air')
+CHECKS['C25'] = _stack('Seeded search over scan and connect requests with right/wrong advertiser address, address type, length, initiators inside/outside the white list and filter switches between any two PDUs, for undirected and directed '
+                       'advertising: the decision to answer / connect is compared with a model of the addressing and filter rules.', _ST + 'scan response / connect decision')
+CHECKS['C27'] = _stack('Seeded search over every LL control opcode (known, unknown, wrong length, responses and rejects) from the central, interleaved with peripheral initiated procedures, lost packets and full buffers: one specified '
+                       'answer per request (content checked for feature/unknown/version), none for responses and rejects, one LL_VERSION_IND per connection, and an unanswered peripheral procedure ends the connection after 40 s (not earlier).',
+                       _ST + 'request/response bookkeeping of the central')
+CHECKS['C29'] = _stack('Seeded search over connect requests, lost first events, updates, remote and local terminations, supervision and procedure timeouts: the recorded application callbacks of every connection must match '
+                       'requested, (established | attempt timeout), changed*, closed(reason) exactly once and in order, and nothing may be reported for a connection that was not requested.', _ST + 'callback order grammar')
+
 # properties that are deliberately not decided by simulation (see DESIGN.md section 7)
 NOT_APPLICABLE = {
     'C04': 'compile-time mapping of the declaration to handles: no schedule, clock, fault or history can influence it (DESIGN.md 7); mapping errors still surface under C02/C03, whose model has an independent handle table',
